@@ -164,7 +164,7 @@ Theorem alloc_hint_harmless : forall s length_blk hint opts ovr, Inv s -> 0 < le
   has opts IWFSM_ALLOC_PAGE_ALIGNED = false ->
   (exists o n, is_run (bm s) o n /\ length_blk <= n) ->
   let '(rc, s', off, olen) := blk_allocate s length_blk hint opts ovr in
-  (rc = 0 \/ rc = IWFS_ERROR_NOT_MMAPED \/ rc = FSM_E_MAXOFF) /\ allocated_from s s' off olen /\ length_blk <= olen.
+  na_outcome s rc s' off olen /\ length_blk <= olen.
 Proof.
   intros s L hint opts ovr Hi HL Hh Hpa (o & n & Hrun & Hn).
   pose proof Hrun as (R1 & R2 & R3 & _). rewrite (inv_len s Hi) in R3. pose proof (inv_u32 s Hi) as Hu.
@@ -174,7 +174,7 @@ Proof.
   { exists (n, o). split; [apply (inv_runs s Hi); exact Hrun|exact Hn]. }
   pose proof (blk_allocate_na_found RESIZE_FUEL s L hint opts ovr nl no Hi HL Hk) as H.
   destruct (blk_allocate_na RESIZE_FUEL s L hint opts ovr) as [[[rc s'] off] olen].
-  destruct H as (H1 & H2 & H3 & H4 & H5). split; [exact H1|]. split; [exact H4|exact H3].
+  destruct H as (H1 & H2 & H3 & H5). split; [exact H1|exact H3].
 Qed.
 
 (* the code as it is: on a new, almost empty file (32702 free blocks) a one-block request with the hint address 2^40 is answered
@@ -536,8 +536,10 @@ Proof.
   - destruct C as (_ & C2 & _ & C4 & C5 & _). unfold BmArea, nbits. rewrite E, C2, C4, C5. exact Hb.
   - apply (hdrarea_keeps s); [exact Hha|exact Hb|exact C|intros i _ Hb1; rewrite E; exact Hb1].
 Qed.
-Lemma full_solid : forall s a b, Full s -> Full (solid s a b).
-Proof. intros s a b H. unfold solid. destruct (ensure_ok s (solid_sz s a b)); [apply full_ensure_size|]; exact H. Qed.
+Lemma full_solid : forall s a b, Full s -> fx_solid (vr s) = false -> Full (solid s a b).
+Proof.
+  intros s a b H Hfx. unfold solid. destruct (ensure_ok s (solid_sz s a b)); [apply full_ensure_size; exact H|]. rewrite Hfx. exact H.
+Qed.
 
 Lemma full_allocated : forall s s' off n, Full s -> allocated_from s s' off n -> HS s' -> Full s'.
 Proof.
@@ -644,6 +646,70 @@ Definition served (s : fsm) (r : aret) (L opts : Z) : Prop :=
 
 Lemma full_geo : forall s s', Full s -> Full s' -> Grown s s' -> True. Proof. trivial. Qed.
 
+(* the region marked and given back: the state predicate holds again, every block is as before *)
+Lemma full_given_back : forall s s' off n, Full s -> given_back s s' off n -> HS s' -> Full s'.
+Proof.
+  intros s s' off n Hf (s4 & Ha & ->) Hh.
+  destruct (carved_release s s4 off n (fu_good s Hf) (fu_bm s Hf) Ha) as (I2 & B2 & C2 & K2).
+  apply (full_cfg s); [exact Hf|exact I2|exact B2|exact Hh|apply (hdrarea_keeps s); [apply Hf|apply Hf|exact C2|exact K2]|exact C2].
+Qed.
+
+Lemma given_back_bits : forall s s' off n, Good s -> given_back s s' off n ->
+  Good s' /\ same_cfg s s' /\ forall i, 0 <= i < nbits s -> getb (bm s') i = getb (bm s) i.
+Proof.
+  intros s s' off n Hg (s4 & Ha & ->). pose proof Ha as (I4 & C4 & A1 & A2 & A3 & A4 & A5).
+  pose proof C4 as (V1 & V2 & V3 & V4 & V5 & V6 & V7). pose proof (inv_len s (proj1 Hg)) as Hl.
+  assert (Hg4 : Good s4) by (apply (good_cfg s); assumption).
+  assert (Hlive : live_range s4 off n).
+  { split; [exact A1|]. split; [exact A2|]. split; [unfold nbits in *; rewrite V4; exact A3|].
+    intros j Hj. rewrite A5. rewrite getb_set_range by lia.
+    replace ((off <=? j) && (j <? off + n)) with true; [reflexivity|].
+    symmetry. apply andb_true_iff. split; [apply Z.leb_le|apply Z.ltb_lt]; lia. }
+  pose proof (blk_deallocate_good s4 off n Hg4 Hlive) as H.
+  destruct (blk_deallocate s4 off n) as [rc s2]. destruct H as (_ & G2 & C2 & B2). simpl.
+  split; [exact G2|]. split; [eapply same_cfg_trans; eassumption|]. intros i Hi1. rewrite B2, A5.
+  rewrite getb_set_range by (rewrite ?set_range_length; lia). rewrite getb_set_range by lia.
+  destruct ((off <=? i) && (i <? off + n)) eqn:E; [|reflexivity].
+  apply andb_true_iff in E. destruct E as [E1 E2]. apply Z.leb_le in E1. apply Z.ltb_lt in E2. symmetry. apply A4. lia.
+Qed.
+
+(* CONSERVATION ACROSS A FAILED CALL (code after 7b9f72c; requests that may not extend the bitmap): whatever makes
+   _fsm_blk_allocate_lw fail - no free extent, a length no key can hold, the file size limit hit by the SOLID epilogue - the
+   configuration is unchanged, the state is good and every block is allocated or free exactly as before.  (The sync error of a5711d1
+   aside: there the region IS handed out in the map although the call reports an error.)
+   _partial: requests that may extend the bitmap are not covered by this statement - a doubling that succeeded before the call
+   failed has legitimately moved the bitmap; what is kept there is [Full] and [Grown] (allocate_full). *)
+Theorem failed_allocate_conserves_partial : forall s L hint opts ovr, Good s -> 0 < L ->
+  has opts IWFSM_ALLOC_NO_EXTEND = true -> fx_solid (vr s) = true ->
+  let '(rc, s', off, olen) := blk_allocate s L hint opts ovr in
+  rc <> 0 -> rc <> IWFS_ERROR_NOT_MMAPED ->
+  Good s' /\ same_cfg s s' /\ forall i, 0 <= i < nbits s -> getb (bm s') i = getb (bm s) i.
+Proof.
+  intros s L hint opts ovr Hg HL Hne Hfx. pose proof Hg as (Hi & Hwf & _).
+  pose proof (blk_allocate_noext s L hint opts ovr Hi Hwf HL Hne) as H.
+  destruct (blk_allocate s L hint opts ovr) as [[[rc s'] off] olen]. unfold alloc_outcome in H.
+  intros Hr0 Hr1. destruct H as [[_ ->]|[([Hc|[Hc|[_ Hc]]] & _)|(_ & _ & Hgb)]]; try contradiction.
+  - split; [exact Hg|]. split; [apply same_cfg_refl|]. intros i _. reflexivity.
+  - rewrite Hfx in Hc. discriminate Hc.
+  - apply (given_back_bits s s' off olen Hg Hgb).
+Qed.
+
+(* the code before 7b9f72c (every other repair in): size limit 64 KB, 128 KB of solid space asked: the call fails and 2048 blocks stay
+   allocated; the code after it: the same call fails and the bitmap is as before *)
+Theorem failed_allocate_conserves_refuted : exists v s, fx_solid v = false /\ vr s = v /\
+  (let r := allocate s 131072 0 (IWFSM_SOLID_ALLOCATED_SPACE + IWFSM_ALLOC_NO_STATS + IWFSM_ALLOC_NO_OVERALLOCATE) false in
+   rc_of r = FSM_E_MAXOFF /\ getb (bm s) 128 = false /\ getb (bm (state_of r)) 128 = true /\ tree (state_of r) = [(62, 2); (30592, 2176)]).
+Proof.
+  exists (mkVariant true true true true true true true true false false), (snd (open_new_max (mkVariant true true true true true true true true false false) 6 0 0 65536 false)).
+  split; [reflexivity|]. split; [vm_compute; reflexivity|]. cbv zeta.
+  split; [vm_compute; reflexivity|]. split; [vm_compute; reflexivity|]. split; vm_compute; reflexivity.
+Qed.
+Example failed_allocate_conserves_fixed :
+  let s := snd (open_new_max v_fixed 6 0 0 65536 false) in
+  let r := allocate s 131072 0 (IWFSM_SOLID_ALLOCATED_SPACE + IWFSM_ALLOC_NO_STATS + IWFSM_ALLOC_NO_OVERALLOCATE) false in
+  rc_of r = FSM_E_MAXOFF /\ getb (bm (state_of r)) 128 = false /\ tree (state_of r) = tree s /\ tree s = [(62, 2); (32640, 128)].
+Proof. cbv zeta. split; [vm_compute; reflexivity|]. split; [vm_compute; reflexivity|]. split; vm_compute; reflexivity. Qed.
+
 Lemma na_found_full : forall fuel s L hint opts ovr nl no, Full s -> 0 < L -> has opts IWFSM_ALLOC_PAGE_ALIGNED = false ->
   find_matching s hint L = Some (nl, no) ->
   let r := blk_allocate_na fuel s L hint opts ovr in
@@ -653,10 +719,13 @@ Proof.
   pose proof (blk_allocate_na_found fuel s L hint opts ovr nl no (proj1 (fu_good s Hf)) HL Efm) as H.
   pose proof (loc_na_found fuel s L hint opts ovr nl no Efm) as Hloc.
   destruct (blk_allocate_na fuel s L hint opts ovr) as [[[rc s'] off] olen].
-  simpl in *. destruct H as (H1 & H2 & H3 & H4 & H5).
-  split; [apply (full_allocated s s' off olen Hf H4); eapply hs_loc; [exact Hloc|apply Hf]|].
-  intros _. exists s. split; [exact Hf|]. split; [apply grown_refl|]. split; [exact H4|]. split; [exact H3|].
-  split; [exact H5|intros Hc; congruence].
+  simpl in *. destruct H as (H1 & H2 & H3 & H5).
+  assert (Hh' : HS s') by (eapply hs_loc; [exact Hloc|apply Hf]).
+  destruct H1 as [(Hrc & H4)|(Hrc & Hfx & Hg)].
+  - split; [apply (full_allocated s s' off olen Hf H4 Hh')|].
+    intros _. exists s. split; [exact Hf|]. split; [apply grown_refl|]. split; [exact H4|]. split; [exact H3|].
+    split; [exact H5|intros Hc; congruence].
+  - split; [apply (full_given_back s s' off olen Hf Hg Hh')|]. intros Hc. rewrite Hrc in Hc. discriminate Hc.
 Qed.
 
 (* the `start:` loop of _fsm_blk_allocate_lw *)
@@ -704,9 +773,13 @@ Proof.
      |replace (0 =? IWFS_ERROR_NO_FREE_SPACE) with false by reflexivity; simpl andb; intros _;
       assert (Hf1 : Full s1) by (apply (full_allocated s s1 off L Hf Ha); eapply hs_loc; [exact Hloc|apply Hf]);
       destruct (has opts IWFSM_SOLID_ALLOCATED_SPACE); simpl;
-      [split; [apply full_solid; exact Hf1|]; intros _; exists s; cbn [off_of olen_of state_of rc_of];
-       split; [exact Hf|]; split; [apply grown_refl|];
-       split; [apply allocated_from_solid; exact Ha|]; split; [lia|]; split; [reflexivity|intros _; split; [exact Hmod|reflexivity]]
+      [destruct (solid_cases s s1 off L Ha) as [[Ha5 Hr]|(Hr & Hfx & Hg)];
+       [split; [apply (full_allocated s _ off L Hf Ha5); eapply hs_loc; [apply loc_solid|apply Hf1]|];
+        intros _; exists s; cbn [off_of olen_of state_of rc_of];
+        split; [exact Hf|]; split; [apply grown_refl|];
+        split; [exact Ha5|]; split; [lia|]; split; [reflexivity|intros _; split; [exact Hmod|reflexivity]]
+       |split; [apply (full_given_back s _ off L Hf Hg); eapply hs_loc; [apply loc_solid|apply Hf1]|];
+        intros Hc; rewrite Hr in Hc; discriminate Hc]
       |split; [exact Hf1|]; intros _; exists s; cbn [off_of olen_of state_of rc_of];
        split; [exact Hf|]; split; [apply grown_refl|];
        split; [exact Ha|]; split; [lia|]; split; [reflexivity|intros _; split; [exact Hmod|reflexivity]]]]).
@@ -1266,7 +1339,7 @@ Lemma reopen_full : forall s st mm, Full s -> Full (reopen s st mm).
 Proof.
   intros s st mm Hf. pose proof Hf as [(Hi & Hwf & Hfx) Hba Hh Hp Hhd Hha].
   destruct (reopen_same s st mm (proj2 (hs_iff s) Hh) (inv_len s Hi) (inv_u32 s Hi) Hwf Hfx) as (Hg & E1 & E2 & E3 & E4 & E5 & _).
-  assert (Ea : aunit (reopen s st mm) = aunit s) by (unfold reopen; destruct (geo_load_fsm (mkFsm (disk_bm s) [] 0 0 (p_bmoff s) (p_bmlen s) (hdrlen s) (bpow s) (aunit s) (fsize s) (p_crzsum s) (p_crznum s) (p_crzsum s) (p_crznum s) (p_bmoff s) (p_bmlen s) (maxoff s) st (mkVariant (fx_lfbk (vr s)) (fx_strict (vr s)) (fx_sync (vr s)) (fx_short (vr s)) (fx_realloc (vr s)) (fx_hint (vr s)) (fx_leak (vr s)) (fx_recheck (vr s)) mm))) as [_ Ha]; exact Ha).
+  assert (Ea : aunit (reopen s st mm) = aunit s) by (unfold reopen; destruct (geo_load_fsm (mkFsm (disk_bm s) [] 0 0 (p_bmoff s) (p_bmlen s) (hdrlen s) (bpow s) (aunit s) (fsize s) (p_crzsum s) (p_crznum s) (p_crzsum s) (p_crznum s) (p_bmoff s) (p_bmlen s) (maxoff s) st (mkVariant (fx_lfbk (vr s)) (fx_strict (vr s)) (fx_sync (vr s)) (fx_short (vr s)) (fx_realloc (vr s)) (fx_hint (vr s)) (fx_leak (vr s)) (fx_recheck (vr s)) (fx_solid (vr s)) mm))) as [_ Ha]; exact Ha).
   constructor; [exact Hg| |apply hs_reopen| |rewrite E4; exact Hhd|].
   - unfold BmArea, nbits. rewrite E1, E2, E3, E5. exact Hba.
   - unfold PageLen. rewrite E3, Ea. exact Hp.
